@@ -137,7 +137,14 @@ class Check(PropertyCheck):
                   "for every final response block h2's validator and mitmproxy's checks accept, what Http1Server writes to an "
                   "HTTP/1 client is read by the response side of the Lean reference reader (Ref.parseResp: status line, "
                   "no body for HEAD/1xx/204/304, content-length, else close-delimited — closeAfter says exactly when the "
-                  "connection must close) as exactly ONE response with the same status, fields and body; status_preserved "
+                  "connection must close) as exactly ONE response with the same status, fields and body; "
+                  "cl_law_from_h2_check / resp_cl_law_from_h2_check derive the content-length hypothesis of these theorems "
+                  "from h2ClOk, the transcription of hyper-h2's _track_content_length (now part of the model, tied to the "
+                  "library on every case) — h2_to_h1_single_message_checked / h2_to_h1_response_single_message_checked — "
+                  "except for the one input class where hyper-h2 checks nothing (END_STREAM on HEADERS with a non-zero "
+                  "content-length: findings F-C06b/c, the explicit guard of the _checked theorems); h2_to_h2_trailers: "
+                  "trailers forwarded HTTP/2 -> HTTP/2 are emitted exactly as received and pass the next hop's validator; "
+                  "status_preserved "
                   "covers the three response conversions; conversion_keeps_message: sending "
                   "leaves the recorded request unchanged and every later send of the same flow emits what the first would "
                   "(the model's sendAll over any history of hops) — the harness checks both on the real code: the recorded "
@@ -149,16 +156,16 @@ class Check(PropertyCheck):
                   "string mitmproxy wrote to an HTTP/1 server (op refparse) and, for its response-stream / close-delimited "
                   "side, on every byte string mitmproxy wrote to an HTTP/1 client (op refresp: same framing decision, same "
                   "messages, same leftover).")
-    level_note = ("trusted / not proved: that hyper-h2 enforces H2Valid and content-length = body length (hypotheses of the "
-                  "theorems; exercised by the differential run — the one hole found, END_STREAM on the HEADERS frame, is "
-                  "finding F-C06b); url.parse_authority (its verdict is a parameter); hpack. PARTIAL: the streamed "
+    level_note = ("trusted / not proved: that hyper-h2 enforces H2Valid and its content-length check h2ClOk (the "
+                  "transcriptions are tied to the library by the differential run on every case; the law 'content-length = "
+                  "body length' itself is no longer a hypothesis but derived from h2ClOk in the _checked theorems, with the "
+                  "hole — END_STREAM on the HEADERS frame, findings F-C06b/c — as their explicit guard); url.parse_authority (its verdict is a parameter); hpack. PARTIAL: the streamed "
                   "(flow.request.stream) request conversion violates the property for bodies without content-length (finding "
                   "F-C06a, pinned by an upstream test): the code does NOT re-frame such a body as chunked, so the theorem is "
                   "_partial + _counterexample, and the model reproduces the defect byte for byte in the differential run; "
                   "streamed RESPONSES towards HTTP/1 without content-length are close-delimited: the theorem "
                   "h2_to_h1_response_single_message covers them only together with the connection closing after the "
-                  "message (closeAfter), which on the real code is checked by the oracle; its content-length law for the "
-                  "response (RespClLaw: what hyper-h2 enforces on DATA vs content-length) is a hypothesis. "
+                  "message (closeAfter), which on the real code is checked by the oracle. "
                   "HTTP/3 is NOT exercised: Http3Server/Http3Client share parse_h2_request_headers / format_h2_*_headers and "
                   "the Http1 conversion with HTTP/2 (covered), the aioquic H3 framing is not. Trailers are only required to "
                   "survive HTTP/2 -> HTTP/2 (oracle + model): mitmproxy has no HTTP/1 trailer support, an HTTP/1 hop is "
